@@ -3,7 +3,7 @@ C10 — State-dict / msgpack serialization round-trips exactly and rejects misma
 
 Property theorems over the models `Flax/Model/Serial.lean` (flax's own logic: to_state_dict,
 from_state_dict and its restore functions, chunking, ext types, to_bytes / from_bytes) and
-`Flax/Model/Msgpack.lean` (the wire format). Helper lemmas live in `Flax/Proofs/{Serial,Chunk,Msgpack,Bytes}.lean`.
+`Flax/Model/Msgpack.lean` (the wire format). Helper lemmas live in `Flax/Proofs/{Serial,SerialChunk,Msgpack,SerialBytes,SerialHeap}.lean`.
 
 Reading guide.  `Tree` = the supported pytrees, `STree` = state dicts, `Leaf` = (dtype name, shape,
 C-order bytes) for arrays and exact bit patterns for scalars, so an equation between trees *is*
@@ -12,7 +12,7 @@ C-order bytes) for arrays and exact bit patterns for scalars, so an equation bet
 `localCheck path tn sn` is the error the pair (target node, state node) raises by itself:
 missing dict key, different list length, different field names, state that is not a dict.
 -/
-import Flax.Proofs.Bytes
+import Flax.Proofs.SerialBytes
 import Flax.Proofs.SerialHeap
 
 namespace Flax.C10
